@@ -412,8 +412,8 @@ def case_main(case):
         if [dict(q) for q in reqs] != b_reqs:
             viol.append((f'rng:requests-depend-on-answers:{sel}', f'{w}: request log {reqs} differs from {b_reqs}'))
             continue
-        if any(q.get('fn') != 'normal' or q['size'] is None or _size_n(q['size']) != N for q in reqs):
-            continue  # already reported by match_requests on the zero-answer run
+        if any(q.get('fn') != 'normal' or q['size'] is None or _size_n(q['size']) != N or not isinstance(q['scale'], float) for q in reqs):
+            continue  # already reported by match_requests on the zero-answer run (incl. a per-sample, array-valued scale)
         z = np.zeros(N)
         for i, q in enumerate(reqs):
             aid = combo[i] if i < len(combo) else 0
